@@ -134,7 +134,18 @@ impl Monitor for C20 {
 
     fn check(&self, case: &J, obs: &mut Obs) -> Verdict {
         let base = case["base"].as_str().unwrap_or("");
-        let want = match debug_of(base) { Ok(d) => d, Err(e) => return Verdict::Inconclusive(format!("base-rejected: {}", norm_err(&e))) };
+        let want = match debug_of(base) {
+            Ok(d) => d,
+            Err(e) => {
+                // the canonical spelling (upper-case keywords, single blanks) is rejected: if any re-spelling of the same
+                // tokens is accepted, the meaning depends on the spelling; if all are rejected, spelling is not the reason
+                let accepted = case["variants"].as_array().map(|a| a.as_slice()).unwrap_or(&[]).iter().filter_map(|v| v["text"].as_str()).find(|t| debug_of(t).is_ok());
+                return match accepted {
+                    Some(t) => Verdict::Violated(vec![Violation::new(format!("layout|canonical-spelling|reject:{}", norm_err(&e)), format!("base {:?} rejected ({}), but its re-spelling {:?} is accepted", base, e, t))]),
+                    None => Verdict::Inconclusive(format!("base-rejected: {}", norm_err(&e))),
+                };
+            }
+        };
         obs.hit(if base.starts_with("CREATE") { "stmt:create-table" } else if base.contains("JOIN") { "stmt:join" } else { "stmt:select" });
         let mut vs: Vec<Violation> = Vec::new();
         let mut judge = |kinds: String, text: &str, vs: &mut Vec<Violation>, obs: &mut Obs| {
